@@ -100,12 +100,51 @@ RefRpcBody(c, ctx, uaddr) ==
            ELSE IF c.proc = << 0, 3 >> THEN << 0, 0, 0, 0 >> \o B32(P32(Len(uaddr))) \o uaddr \o pad
            ELSE << 0, 0, 0, 3 >>)
 
+(* XDR string: length, bytes, zero padding to a multiple of four *)
+XdrStr(q) == B32(P32(Len(q))) \o q \o [ i \in 1..(RPad4(Len(q)) - Len(q)) |-> 0 ]
+OWNER == << 115, 117, 112, 101, 114, 117, 115, 101, 114 >>                     \* "superuser"
+
+RefRpcDump(c, ctx, uaddr) ==
+    B32(c.xid) \o << 0, 0, 0, 1, 0, 0, 0, 0, 0, 0, 0, 0, 0, 0, 0, 0 >> \o << 0, 0, 0, 0 >>
+    \o << 0, 0, 0, 1 >> \o B32(PORTMAP) \o B32(c.vers)
+    \o (IF c.vers[2] = 2 THEN << 0, 0, 0, 6 >> \o B32(P32(ctx.dport))
+        ELSE XdrStr(IF ctx.ver = 4 THEN NETID_TCP ELSE NETID_TCP6) \o XdrStr(uaddr) \o XdrStr(OWNER))
+    \o << 0, 0, 0, 0 >>
+
 RefRpc(s, o, ctx, uaddr) ==
-    LET body == RefRpcBody(RpcCall(s, o), ctx, uaddr) IN
+    LET c == RpcCall(s, o)
+        isDump == c.vers[1] = 0 /\ c.vers[2] >= 2 /\ c.vers[2] <= 4 /\ c.prog = PORTMAP /\ c.proc = << 0, 4 >>
+        body == IF isDump THEN RefRpcDump(c, ctx, uaddr) ELSE RefRpcBody(c, ctx, uaddr)
+    IN
     IF o = 4 THEN << 128, 0 >> \o B16(Len(body)) \o body ELSE body
 
+(* ---- SMB (little endian) ---- *)
+LE16(n) == << n % 256, n \div 256 >>
+Zeros(n) == [ i \in 1..n |-> 0 ]
+REF_BLOB == << 96, 6, 6, 4, 43, 6, 1, 5 >>                                        \* some security blob
+RefNbt(m) == << 0, Len(m) \div 65536 >> \o B16(Len(m) % 65536) \o m
+
+RefSmb1(seg, body) ==
+    RefNbt(<< 255, 83, 77, 66, S1Cmd(seg), 0, 0, 0, 0, 152, 7, 200 >> \o SubSeq(seg, 4 + 13, 4 + 14) \o Zeros(10)
+           \o SubSeq(seg, 4 + 25, 4 + 32) \o body)
+RefSmb1Negotiate(seg) ==
+    RefSmb1(seg, << 17 >> \o LE16(0) \o Zeros(32) \o LE16(16 + Len(REF_BLOB)) \o Zeros(16) \o REF_BLOB)
+RefSmb1SessionSetup(seg) ==
+    RefSmb1(seg, << 4, 255, 0, 0, 0, 0, 0 >> \o LE16(Len(REF_BLOB)) \o LE16(Len(REF_BLOB) + 2) \o REF_BLOB \o << 0, 0 >>)
+
+RefSmb2(seg, body) ==
+    RefNbt(<< 254, 83, 77, 66, 64, 0, 0, 0, 0, 0, 0, 0 >> \o LE16(S2Cmd(seg)) \o << 1, 0, 1, 0, 0, 0, 0, 0, 0, 0 >>
+           \o S2Corr(seg) \o Zeros(16) \o body)
+RefSmb2Negotiate(seg) ==
+    LET d == S2NegotiateDialects(seg)
+        pick == IF 514 \in { d[i] : i \in 1..Len(d) } THEN 514 ELSE 528
+    IN RefSmb2(seg, LE16(65) \o LE16(1) \o LE16(pick) \o LE16(0) \o Zeros(16) \o Zeros(16) \o Zeros(16)
+                    \o LE16(128) \o LE16(Len(REF_BLOB)) \o Zeros(4) \o REF_BLOB)
+RefSmb2SessionSetup(seg) ==
+    RefSmb2(seg, LE16(9) \o LE16(0) \o LE16(72) \o LE16(Len(REF_BLOB)) \o REF_BLOB)
+
 (* reference application reply; << >> = no application data.  Only "must" *)
-(* requests are answered; DUMP and SMB requests are outside the MC domain. *)
+(* requests are answered.                                                  *)
 RefApp(transport, before, seg, ctx, uaddr) ==
     LET c == Classify(transport, before, seg, ctx) IN
     IF c.ans # "must" THEN << >>
@@ -116,6 +155,8 @@ RefApp(transport, before, seg, ctx, uaddr) ==
            [] c.proto = "DNS"   -> RefDns(seg, ctx)
            [] c.proto = "RPC_UDP" -> RefRpc(seg, 0, ctx, uaddr)
            [] c.proto = "RPC_TCP" -> RefRpc(before \o seg, 4, ctx, uaddr)
+           [] c.proto = "SMB1" -> IF S1Cmd(seg) = 114 THEN RefSmb1Negotiate(seg) ELSE RefSmb1SessionSetup(seg)
+           [] c.proto = "SMB2" -> IF S2Cmd(seg) = 0 THEN RefSmb2Negotiate(seg) ELSE RefSmb2SessionSetup(seg)
            [] OTHER -> << >>
 
 RefShift(transport, before, seg) ==
